@@ -9,6 +9,7 @@ From FB.Base Require Import PyVal Fs.
 From FB.Spec Require Import Prog.
 From FB.Model Require Import Types Monad Builder Run Conc.
 From FB.Proofs Require Import ConcLaws.
+From FB.Proofs Require OpsGenLaws.   (* T1g: build_file*, subbuild, queries, cache validation of file_builder.py = Model/Builder.v (Gen/OpsGen.v) *)
 Import ListNotations.
 
 (* sequential: the three kinds of calls on a finished builder *)
